@@ -22,7 +22,8 @@ UNKNOWN_ID = 0x0badc0d0
 
 def setup(symbolic):
     if symbolic:
-        from vxlib.symx import shims
+        from vxlib.symx import shims, loader
+        loader.install()
         shims.install()
 
 
@@ -175,6 +176,7 @@ def run_long(ctx, st):
         try:
             ret = p.feed(e.obj)
         except Exception as ex:     # noqa
+            __import__('vxlib.symx.core', fromlist=['x']).proxy_rejected(ex)
             ctx.check('C04/long/no-error', False, 'event %d: %s: %s' % (i, type(ex).__name__, ex))
             ctx.reach()
             return
@@ -204,6 +206,7 @@ def run_history(ctx, st):
         try:
             ret = p.feed(e.obj)
         except Exception as ex:     # noqa
+            __import__('vxlib.symx.core', fromlist=['x']).proxy_rejected(ex)
             ctx.check('C04/history/no-error', False, '%s: %s' % (type(ex).__name__, ex))
             ctx.reach()
             return
@@ -261,6 +264,7 @@ def run_step(ctx, st):
     try:
         ret = p.feed(e.obj)
     except Exception as ex:     # noqa
+        __import__('vxlib.symx.core', fromlist=['x']).proxy_rejected(ex)
         ctx.check('C04/step/no-error', False, '%s: %s' % (type(ex).__name__, ex))
         ctx.reach()
         return
